@@ -169,6 +169,14 @@ class _Return(Exception):
         self.value = value
 
 
+class _Break(Exception):
+    pass
+
+
+class _Continue(Exception):
+    pass
+
+
 def _hashable(v):
     hash(v)
     return v
@@ -935,11 +943,41 @@ class Folder(object):
                                st, env.module)
             if isinstance(it, dict):
                 it = list(it)
+            broke = False
             for item in list(it):
                 self.assign(st.target, item, env)
-                self.exec_block(st.body, env, fi)
-            self.exec_block(st.orelse, env, fi)
+                try:
+                    self.exec_block(st.body, env, fi)
+                except _Continue:
+                    continue
+                except _Break:
+                    broke = True
+                    break
+            if not broke:
+                self.exec_block(st.orelse, env, fi)
             return
+        if isinstance(st, ast.While):
+            n_iter = 0
+            broke = False
+            while self.truth(self.eval(st.test, env), st.test, env):
+                n_iter += 1
+                if n_iter > 100000:
+                    raise self.err('while loop does not fold to a bounded '
+                                   'iteration', st, env.module)
+                try:
+                    self.exec_block(st.body, env, fi)
+                except _Continue:
+                    continue
+                except _Break:
+                    broke = True
+                    break
+            if not broke:
+                self.exec_block(st.orelse, env, fi)
+            return
+        if isinstance(st, ast.Continue):
+            raise _Continue()
+        if isinstance(st, ast.Break):
+            raise _Break()
         if isinstance(st, ast.Pass):
             return
         if isinstance(st, ast.Raise):
